@@ -2,7 +2,10 @@
 (tolerance regime: the probability vectors and one-period costs are SciPy floats) + an independent
 Python implementation of the documented recursion, evaluation-vs-optimisation, K=0 => s=S, T=1,
 myopic bounds (Python oracle + tie of the theorems C12_myopic_* about the model's own myopic levels to myopic_bounds' outputs and to
-the implementation's S_t: myopic_model_compare), and a check that the one-period cost is the one of the *specified* demand distribution."""
+the implementation's S_t: myopic_model_compare), and a check that the one-period cost is the one of the *specified* demand distribution.
+Oracle-only streams beside the first (model-compared) one: period-varying fixed costs (gen_myopic_case), call sequences on shared argument
+objects (gen_seq_case, call_case, sequence_oracle), discrete demand with mass outside the demand-truncation range (gen_lumpy_case), tiny fixed
+cost relative to the cost level with a flat myopic cost (gen_flat_case)."""
 import math, warnings
 from fractions import Fraction
 import numpy as np
@@ -19,7 +22,18 @@ RULE = ('T in 1..4 (quick) / 1..8 (thorough); h, p, c, K, gamma, demand mean/sd 
         'default spreads, optimisation mode (25% on a user x_range that must be doubled), period-varying fixed cost with profile rise / spike / zig-zag '
         '(a fixed cost worth 1.5..4 periods of holding one period\'s demand after periods with K = 0..10, so that K_t < gamma_t K_{t+1} and s_t lies far above '
         'S_underbar_t), falling, flat, or within 0.25 of gamma_t K_{t+1}; h and the demand mean mildly period-varying in 30%; myopic_bounds is held against the DP '
-        'period by period also where Veinott\'s conditions fail (S_overbar always, s_overbar wherever a number is reported, the lower bounds on condition-satisfying tails). non-trivial = T >= 2 and (some s_t < S_t or the S_t are not all equal); '
+        'period by period also where Veinott\'s conditions fail (S_overbar always, s_overbar wherever a number is reported, the lower bounds on condition-satisfying tails). '
+        'In stream 1, 15% of the cases with T >= 2 that are not of the fixed-cost-jump / myopic-friendly kind give the demand as a per-period list mixing None (normal period, demand_mean / demand_sd lists) with DemandSource objects '
+        '(lists of T or T+1 elements, None or an ignored number in demand_mean / demand_sd at the periods that have a source). '
+        'Third stream (8 quick / 60 thorough, oracles only): CALL SEQUENCES on shared argument objects -- a stream-1 case with T in 2..3 (60% with a mixed None/DemandSource list, 75% of them T+1 elements) is '
+        'preceded by a call in which one to three numeric arguments (demand_mean, demand_sd, costs, discount factor) have other values and every other argument object (lists, arrays, DemandSource '
+        'objects) is the same object; the result of the last call is held against all oracles and must equal bit for bit the result of a single call on freshly built objects; argument objects changed by a call are counted. '
+        'Fourth stream (10 quick / 80 thorough, oracles only): discrete demand whose support is not covered by the demand-truncation range [d_min, d_max] with d_min > 0 -- custom-discrete demand around 10..38 with a rare '
+        '(0.5..4%) low outlier, a rare high outlier or both; Poisson mean 16..40 / negative binomial with d_spread 2 or 3 -- T in 1..3, evaluation mode (never-order, (s,S) with s <= d_min, base-stock below d_min; 45%), '
+        'optimisation on the default grid with fixed costs worth 0.8..3 periods of lost demand (reorder point below d_min) or small, optimisation on a user x_range. '
+        'Fifth stream (4 quick / 16 thorough, oracles only; K / G stratified): expensive item with a tiny fixed cost, K = 3e-6 .. 3e-5 of the myopic cost level G_t(S_underbar_t) ~ c mu, and a flat myopic cost '
+        '(p/(p+h) = 0.995 .. 0.999, sd 8..31, mu = 5..6 sd, d_spread 5) so that this K still separates s_underbar, S_underbar and S_overbar by 4..6 grid units; T = 2, gamma = 1, stationary; myopic_bounds against the DP. '
+        'non-trivial = T >= 2 and (some s_t < S_t or the S_t are not all equal); '
         'distinct = distinct (normalised parameters, demand, grid, mode).')
 
 SIG_PRICING = 'finite_horizon_dp|one-period-cost-uses-normal_loss-for-non-normal-demand_source'
@@ -85,6 +99,157 @@ def gen_matched_pair(rng, small=False):
         if sd <= 0: continue
         b = dict(type='N', mean=m, standard_deviation=sd)
         if _moments(b) == (m, sd): return a, b
+
+
+def gen_mixed_demand(rng, T, small=False, t1=None):
+    """per-period list in which some periods are given as DemandSource objects and the others as None + demand_mean / demand_sd
+    (finite_horizon.py builds a normal source for every period whose demand_source entry is None); the three lists have
+    independent shapes (T or T+1 elements); at the periods that have a source, demand_mean / demand_sd hold None or a number
+    that is documented as ignored"""
+    while True:
+        src = [gen_source(rng, small) if rng.random() < 0.5 else None for _ in range(T)]
+        if any(x is None for x in src) and any(x is not None for x in src): break
+    means = [(_r(rng, 3, 8 if small else 12, 2) if x is None else rng.choice([None, None, _r(rng, 3, 12, 2)])) for x in src]
+    sds = [(_r(rng, 1, 1.5 if small else 3, 2) if x is None else rng.choice([None, None, _r(rng, 1, 3, 2)])) for x in src]
+    sh = lambda l, z: ['list', ([z] + l) if (rng.random() < 0.6 if t1 is None else t1) else l]
+    return dict(kind='mixed', sources=sh(src, None), mean=sh(means, rng.choice([None, 0.0])), sd=sh(sds, rng.choice([None, 0.0])))
+
+
+NUMERIC_KW = dict(h='holding_cost', p='stockout_cost', c='purchase_cost', K='fixed_cost', gamma='discount_factor')
+
+
+def gen_seq_case(rng, tmax, malformed_rate=0.0):
+    """third stream: CALL SEQUENCES on the same argument objects (what a sensitivity analysis does): a first call, then the
+    caller replaces one to three of the numeric arguments (demand_mean / demand_sd / costs) and calls again with every other
+    argument object -- lists, arrays, DemandSource objects -- re-used.  The case describes the SECOND call; c['prior'] holds the
+    values that the replaced arguments had in the first one.  Demand: 60% mixed None/DemandSource lists, else as in stream 1."""
+    while True:
+        c = gen_case(rng, min(tmax, 3), 0.0)
+        if c['T'] >= 2 and not c.get('K_jump') and c['IL'] in range(-3, 13): break
+    c.pop('myopic_friendly', None)
+    T = c['T']
+    if rng.random() < 0.6:
+        c.pop('matched', None); c['demand'] = gen_mixed_demand(rng, T, False, t1=rng.random() < 0.75)
+    d = c['demand']; prior = {}
+    def perturb(a, f):
+        return ['scalar', f(a[1])] if a[0] == 'scalar' else ['list', [v if v is None else f(v) for v in a[1]]]
+    if d['kind'] != 'source' and rng.random() < 0.85:
+        dm = rng.choice([-2.0, 2.0, 3.0, 5.0]); prior['demand_mean'] = perturb(d['mean'], lambda v: max(1.0, v + dm))
+        if rng.random() < 0.4: prior['demand_sd'] = perturb(d['sd'], lambda v: v + 0.5)
+    for k in rng.sample(sorted(NUMERIC_KW), rng.choice([0, 1, 1, 2]) if prior else rng.choice([1, 2])):
+        if k == 'gamma': prior[NUMERIC_KW[k]] = perturb(c[k], lambda v: 1.0 if v != 1.0 else 0.9)
+        else: prior[NUMERIC_KW[k]] = perturb(c[k], lambda v: v + rng.choice([0.5, 1.0, 4.0]))
+    c['prior'] = prior; c['seq_stream'] = True
+    return c
+
+
+def gen_lumpy_case(rng, tmax, malformed_rate=0.0):
+    """fourth stream: DISCRETE demand whose support is NOT covered by the demand-truncation range [d_min, d_max] =
+    [mean - d_spread sd, mean + d_spread sd] with d_min > 0: custom-discrete demand with a rare low outlier (an occasional
+    period with almost no demand), a rare high outlier (a spike), or both; Poisson / negative binomial with mean 16..40 and
+    d_spread 2 or 3.  The one-period cost is the expectation under the WHOLE specified distribution also for y <= d_min and
+    y >= d_max.  States at or below d_min in which nothing is ordered are reached through evaluation mode (never-order,
+    (s,S) with s <= d_min, base-stock below d_min) and through fixed costs worth 0.8..3 periods of lost demand."""
+    T = rng.randint(1, max(1, min(tmax, 3)))
+    fam = rng.choice(['CD-low', 'CD-low', 'CD-low', 'CD-high', 'CD-both', 'P', 'NB'])
+    base = rng.randint(10, 30)
+    def one():
+        if fam == 'P': return dict(type='P', mean=float(base + rng.randint(6, 10)))
+        if fam == 'NB': return dict(type='NB', n=base + rng.randint(0, 4), p=0.5)
+        m = rng.randint(2, 4); pts = sorted(rng.sample(range(base, base + rng.randint(3, 8) + 1), m)); w = [rng.randint(1, 8) for _ in pts]
+        out = []
+        if fam in ('CD-low', 'CD-both'): out.append((rng.randint(0, base // 3), rng.choice([0.005, 0.01, 0.015, 0.02, 0.03, 0.04])))
+        if fam in ('CD-high', 'CD-both'): out.append((rng.randint(2 * base, 3 * base), rng.choice([0.005, 0.01, 0.015, 0.02])))
+        rest = 1.0 - sum(q for _, q in out); tot = sum(w)
+        pq = sorted(out + [(x, rest * v / tot) for x, v in zip(pts, w)])
+        pr = [q for _, q in pq]
+        i = max(range(len(pr)), key=lambda j: pr[j]); pr[i] = 1.0 - sum(q for j, q in enumerate(pr) if j != i)
+        return dict(type='CD', demand_list=[x for x, _ in pq], probabilities=pr)
+    u = rng.random()
+    if u < 0.5 or T == 1: src = ['scalar', one()]
+    else:
+        l = [one()] * T if u < 0.7 else [one() for _ in range(T)]
+        src = ['list', ([None] + l) if rng.random() < 0.5 else l]
+    def arg(draw, stationary_p=0.6):
+        shape = rng.choice(['scalar', 'scalar', 'T', 'T1'])
+        if shape == 'scalar': return ['scalar', draw()]
+        v0 = draw(); vals = [v0] * T if rng.random() < stationary_p else [draw() for _ in range(T)]
+        return ['list', ([0.0] + vals) if shape == 'T1' else vals]
+    c = dict(T=T, h=arg(lambda: _r(rng, 0.25, 3)), p=arg(lambda: _r(rng, 2, 20)), c=(['scalar', 0.0] if rng.random() < 0.3 else arg(lambda: _r(rng, 0, 3))),
+             K=['scalar', 0.0], gamma=arg(lambda: rng.choice([1.0, 0.9, 0.95]), 0.8), malformed=None, s_spread=5,
+             d_spread=(rng.choice([2, 3]) if fam in ('P', 'NB') else rng.choice([4, 4, 4, 3])), demand=dict(kind='source', sources=src),
+             IL=float(rng.randint(-3, 12)), lumpy_stream=fam)
+    if fam == 'NB': c['d_spread'] = 2
+    tm = rng.random()
+    if tm < 0.4: c['hT'], c['pT'] = 0.0, 0.0
+    else: c['hT'], c['pT'] = _r(rng, 0, 3), _r(rng, 0, 20)
+    ms = [_moments(spec_of(c, t)) for t in range(1, T + 1)]
+    mean = min(m for m, _ in ms); sd = max(s for _, s in ms); d_min = int(max(0, round(mean - c['d_spread'] * sd)))
+    c['lumpy_d_min'] = d_min
+    pbar = max(norm_list(c['p'], T)[1:])
+    um = rng.random()
+    c['mode'] = 'eval' if um < 0.45 else ('opt' if um < 0.85 else 'optgrid')
+    if c['mode'] == 'eval':
+        lo = -rng.randint(5, 20); hi = int(max(a for a, _ in ms) * rng.choice([2, 2.5, 3])); c['xr'] = [lo, hi]
+        def pol():
+            k = rng.random()
+            if k < 0.35: return dict(type='never')
+            if k < 0.75:
+                s_ = rng.randint(lo + 1, max(lo + 2, d_min)); return dict(type='sS', s=s_, S=rng.randint(max(s_ + 1, int(mean)), hi - 1))
+            return dict(type='basestock', S=rng.randint(1, max(2, int(mean + sd))))
+        c['policy'] = [pol() for _ in range(T)] if rng.random() < 0.5 else [pol()] * T
+        c['K'] = arg(lambda: rng.choice([0.0, _r(rng, 1, 40)]))
+    else:
+        hmin = min(norm_list(c['h'], T)[1:]); kcap = 160.0 ** 2 * hmin * pbar / (2 * mean * (hmin + pbar))                # EOQB <= 160: keeps the default grid small
+        if rng.random() < 0.65: c['K'] = arg(lambda: float(round(min(kcap, pbar * mean * rng.choice([0.8, 1, 1.5, 2, 3])))), 0.8)     # reorder point far below the usual demand
+        else: c['K'] = arg(lambda: rng.choice([0.0, _r(rng, 1, 40)]))
+        if c['mode'] == 'optgrid': c['xr'] = [-rng.randint(10, 30), rng.randint(int(1.5 * mean), int(3 * mean))]
+    return c
+
+
+def gen_flat_case(rng, tmax, malformed_rate=0.0, stratum=None):
+    """fifth stream: an expensive item with a TINY fixed cost -- K_t a fraction 3e-6 .. 3e-5 of the myopic cost level
+    G_t(S_underbar_t) ~ c mu -- and a flat myopic cost (high service level p/(p+h) = 0.995 .. 0.999), so that this K
+    still separates s_underbar_t, S_underbar_t and S_overbar_t by delta = 4 .. 6 grid units (delta^2 = 2 K sd / ((h+p) phi(z*))).
+    The DP's discretisation must stay benign in this regime, in which the minimiser reacts to relative cost changes of 1e-6:
+    - the demand table must hold practically all the mass (d_spread = 5, mu >= 5 sd): a lost mass eps tilts the DP's
+      c_t y + H_t(y) by c eps, i.e. moves its minimiser by c eps sd / ((h+p) phi(z*)) -- a grid unit already for eps = 3e-4;
+    - 'never order in the lowest state' must not be attractive (the clamp at x_min makes demand vanish there):
+      c mu < p (mu - x_min) = p (mu + (s_spread + d_spread) sd).
+    Together with K / (c mu) = r this fixes sd ~ 1 / sqrt(r): fractions much below 3e-6 would need grids of several thousand
+    points (not generated).  gamma = 1, stationary parameters (Veinott's conditions hold), T = 2, terminal stockout cost
+    large enough that S_underbar_{T-1} <= S_overbar_T."""
+    from statistics import NormalDist
+    T = 2
+    p = _r(rng, 5, 20); delta = rng.uniform(4, 6); k = rng.uniform(5, 6); slack = rng.uniform(0.6, 0.85)
+    lo, hi = stratum if stratum else (3e-6, 3e-5)
+    r = math.exp(rng.uniform(math.log(lo), math.log(hi)))
+    ratios = [0.995, 0.998, 0.999]; ri = rng.randrange(3)
+    while True:
+        ratio = ratios[ri]; h = p * (1 - ratio) / ratio; z = NormalDist().inv_cdf(ratio); ph = phi(z)
+        sigma = math.sqrt(delta ** 2 * ph * (h + p) / (2 * slack * r * p * (10 + k)))
+        if (15 + k) * sigma <= 640: break
+        if ri < 2: ri += 1                                   # a higher service level makes the myopic cost flatter: smaller sd for the same delta
+        elif delta > 4: delta = max(4.0, delta * 0.95)
+        else: r *= 1.1
+    sigma = float(max(8, round(sigma))); mu = float(math.ceil(k * sigma))
+    cpur = round(slack * p * (10 * sigma + mu) / mu, 2)
+    K = r * (cpur * mu + (h + p) * ph * sigma)
+    pT = float(math.ceil(cpur * (p + h) / h * rng.uniform(1.1, 2)))
+    sc = lambda v: ['scalar', v] if rng.random() < 0.6 else ['list', ([0.0] + [v] * T) if rng.random() < 0.5 else [v] * T]
+    return dict(T=T, h=sc(h), p=sc(p), c=sc(cpur), K=sc(K), gamma=['scalar', 1.0], hT=0.0, pT=pT, malformed=None, d_spread=5, s_spread=5,
+                mode='opt', IL=float(rng.randint(0, int(mu))), demand=dict(kind='normal', mean=sc(mu), sd=sc(sigma)),
+                flat_stream='K/G=%.0e' % r)
+
+
+def flat_gen_stratified():
+    """gen_flat_case with K / G cycling through four strata of [3e-6, 3e-5] (equal on the log scale), so that a handful of
+    cases covers the range"""
+    edges = [3e-6 * 10 ** (i / 4) for i in range(5)]; n = [0]
+    def gen(rng, tmax, malformed_rate=0.0):
+        i = n[0] % 4; n[0] += 1
+        return gen_flat_case(rng, tmax, malformed_rate, stratum=(edges[i], edges[i + 1]))
+    return gen
 
 
 def gen_case(rng, tmax, malformed_rate=0.08):
@@ -178,6 +343,13 @@ def gen_case(rng, tmax, malformed_rate=0.08):
                 c['mode'] = 'eval'; c['xr'] = [-15, 35]; c['policy'] = [dict(type='basestock', S=9)] * T
             if k == 'oul_no_xr': c['drop_xr'] = True
             else: c['policy'] = list(c['policy']); c['policy'][rng.randrange(T)] = dict(type='basestock', S=c['xr'][1] + rng.randint(1, 5))
+    if T >= 2 and not c['malformed'] and not c.get('K_jump') and not c.get('myopic_friendly'):
+        # ~15% of these: demand given as a per-period list mixing None (normal period, mean / sd lists) with DemandSource objects.
+        # Drawn from a generator seeded by the case built so far, so that the main sequence of cases of a seed does not depend on it.
+        import random
+        sub = random.Random(json.dumps(jsonable(c), sort_keys=True))
+        if sub.random() < 0.15:
+            c.pop('matched', None); c['demand'] = gen_mixed_demand(sub, T, small)
     return c
 
 
@@ -256,6 +428,9 @@ def impl_kwargs(c):
     d = c['demand']
     if d['kind'] == 'normal':
         kw['demand_mean'] = py_arg(d['mean']); kw['demand_sd'] = py_arg(d['sd'])
+    elif d['kind'] == 'mixed':
+        kw['demand_mean'] = py_arg(d['mean']); kw['demand_sd'] = py_arg(d['sd'])
+        kw['demand_source'] = [mk_source(x) for x in d['sources'][1]]          # None stays None: a normal period given by mean / sd
     else:
         s = d['sources']
         kw['demand_source'] = mk_source(s[1]) if s[0] == 'scalar' else [mk_source(x) if x is not None else 0 for x in s[1]]
@@ -277,6 +452,57 @@ def call_impl(kw):
     return dict(ok=True, s=[int(v) for v in s], S=[float(v) for v in S], total=float(tc), cm=np.array(cm, dtype=float),
                 om=np.array(om, dtype=float), xr=[int(v) for v in xr],
                 warn=sorted({str(x.message)[:40] for x in w}))
+
+
+def _snap(v):
+    """value snapshot of an argument object (to detect that a call modified what the caller passed in)"""
+    if isinstance(v, (list, tuple)): return ('list', tuple(_snap(x) for x in v))
+    if isinstance(v, np.ndarray): return ('nd', v.shape, str(v.dtype), v.tobytes() if v.dtype != object else tuple(_snap(x) for x in v.ravel()))
+    if hasattr(v, '__dict__'): return ('obj', id(v), repr(sorted((k, repr(x)) for k, x in vars(v).items())))
+    return ('val', repr(v))
+
+
+def call_case(c):
+    """the implementation run that the case describes: one call of finite_horizon_dp, or -- when c['prior'] is present -- a call
+    SEQUENCE: first a call in which the arguments named in c['prior'] have the prior values, then the call described by the case
+    itself with every other argument object (lists, arrays, DemandSource objects) re-used from the first call.  The returned
+    record is that of the LAST call; 'modified' lists the arguments whose objects were changed by a call."""
+    kw = impl_kwargs(c); modified = []
+    def run_(k):
+        before = {a: _snap(v) for a, v in k.items()}
+        r_ = call_impl(k)
+        for a, v in k.items():
+            if _snap(v) != before[a] and a not in modified: modified.append(a)
+        return r_
+    if c.get('prior'):
+        kw0 = dict(kw)
+        for a, v in c['prior'].items(): kw0[a] = py_arg(v)
+        r0 = run_(kw0)
+    r = run_(kw)
+    r['modified'] = sorted(modified)
+    if c.get('prior'): r['prior_ok'] = r0['ok']
+    return r
+
+
+def sequence_oracle(c, r, chk):
+    """the result of a call is a function of the arguments of THAT call: the last call of a sequence on shared argument
+    objects must equal a single call on freshly built objects (bit for bit: same code, same inputs)"""
+    if r.get('modified'): chk.count('caller-argument-object-modified-by-call')
+    if not c.get('prior'): return []
+    f = call_impl(impl_kwargs(c))
+    how = None
+    if f['ok'] != r['ok']: how = 'the call after a prior call %s, the same call on fresh objects %s' % tuple('returns' if x['ok'] else 'raises ' + x['kind'] for x in (r, f))
+    elif not r['ok']: how = None if f['kind'] == r['kind'] else 'raises %s after a prior call, %s on fresh objects' % (r['kind'], f['kind'])
+    elif r['xr'] != f['xr'] or r['cm'].shape != f['cm'].shape: how = 'x_range %d..%d after a prior call, %d..%d on fresh objects' % (r['xr'][0], r['xr'][-1], f['xr'][0], f['xr'][-1])
+    elif not (np.array_equal(r['cm'], f['cm']) and np.array_equal(r['om'], f['om']) and r['s'] == f['s'] and r['S'] == f['S'] and r['total'] == f['total']):
+        e = np.abs(r['cm'] - f['cm']); i = np.unravel_index(int(e.argmax()), e.shape)
+        how = ('(s,S) = (%r, %r), total cost %r after a prior call; (%r, %r), %r on fresh objects; cost_matrix[%d, x=%d] = %r vs %r'
+               % (r['s'][1:], r['S'][1:], r['total'], f['s'][1:], f['S'][1:], f['total'], i[0], r['xr'][i[1]], float(r['cm'][i]), float(f['cm'][i])))
+    if how is None: return []
+    return [('result-depends-on-earlier-call-sharing-argument-objects',
+             'a first call with %s = %r, then the call of the case with all other argument objects re-used: %s%s'
+             % (', '.join(sorted(c['prior'])), {a: py_arg(v) for a, v in sorted(c['prior'].items())}, how,
+                ('; argument objects modified by the calls: %s' % ', '.join(r['modified'])) if r.get('modified') else ''))]
 
 
 def norm_list(a, T):
@@ -326,7 +552,7 @@ def tables(c, xr):
             row.append(float(h[t] * n_bar + p[t] * n))
         L.append(row)
     return dict(h=[float(v) for v in h], p=[float(v) for v in p], c=[float(v) for v in cc], K=[float(v) for v in K],
-                g=[float(v) for v in g], mean=[float(v) for v in mean], sd=[float(v) for v in sd], d_min=d_min, d_max=d_max,
+                g=[float(v) for v in g], mean=[float(v) if v is not None else 0.0 for v in mean], sd=[float(v) if v is not None else 0.0 for v in sd], d_min=d_min, d_max=d_max,
                 x_min0=x_min0, x_max0=x_max0, prob=prob, L=L, kinds=[None] + [ds[t].type for t in range(1, T + 1)])
 
 
@@ -351,8 +577,10 @@ def spec_of(c, t):
         return dict(type='N', mean=norm_list(d['mean'], T)[t], standard_deviation=norm_list(d['sd'], T)[t])
     s = d['sources']
     if s[0] == 'scalar': return s[1]
-    l = s[1]
-    return l[t] if len(l) == T + 1 else l[t - 1]
+    l = s[1]; at = lambda v: v[t] if len(v) == T + 1 else v[t - 1]
+    if d['kind'] == 'mixed' and at(l) is None:
+        return dict(type='N', mean=at(d['mean'][1]), standard_deviation=at(d['sd'][1]))
+    return at(l)
 
 
 def _pois_pmf(k, m): return math.exp(-m + k * math.log(m) - math.lgamma(k + 1)) if m > 0 else (1.0 if k == 0 else 0.0)
@@ -509,7 +737,8 @@ def oracle(c, r, chk, extra_eval=True):
         else: own = candO.min(axis=1)
         if ok and np.max(np.abs(own - cm[t]) / np.maximum(1e-9, np.abs(own))) > max(1e-8, 10 * tol):
             bad.append(('recursion-compounded', 'period %d: independent full recursion differs from cost_matrix' % t))
-    if near: chk.extra['near_tie_skipped'] = chk.extra.get('near_tie_skipped', 0) + near
+    if near:
+        with NEAR_LOCK: chk.extra['near_tie_skipped'] = chk.extra.get('near_tie_skipped', 0) + near
     if pricing: bad.append((SIG_PRICING.split('|', 1)[1], pricing))
     # total cost
     il = int(c['IL'])
@@ -629,7 +858,7 @@ def compare_model(c, r, m, tb, chk):
             for i in range(n):
                 if mo[i] != io[i]:
                     if relgap(cand[i, mo[i] - x_min], cand[i, io[i] - x_min]) <= 1e-7:
-                        chk.extra['near_tie_skipped'] = chk.extra.get('near_tie_skipped', 0) + 1
+                        with NEAR_LOCK: chk.extra['near_tie_skipped'] = chk.extra.get('near_tie_skipped', 0) + 1
                     else:
                         chk.mismatch('oul_matrix[%d, x=%d]: model %d vs implementation %d' % (t, xr[i], mo[i], io[i]), c); return
         elif [int(v) for v in ms][t - 1] != r['s'][t] or [int(v) for v in mS][t - 1] != int(r['S'][t]):
@@ -819,13 +1048,18 @@ def case_key(c, r):
                                 [spec_of(c, t) for t in range(1, c['T'] + 1)], r['xr'][0], r['xr'][-1], c['mode'], c.get('policy')]), sort_keys=True)
 
 
-def explore(chk, n, tmax, do_model=True, malformed_rate=0.08, gen=None):
+NEAR_LOCK = __import__('threading').Lock()      # chk.extra['near_tie_skipped'] is updated by the oracle and by the (possibly concurrent) model comparison
+
+
+def explore(chk, n, tmax, do_model=True, malformed_rate=0.08, gen=None, defer=False):
+    """defer=True: the implementation runs and oracles are done on return; the evaluation of the Coq model and its comparison
+    (which only wait for coqc processes) are returned as a function to be run by the caller, e.g. in a thread beside the oracle-only streams"""
     cases = [(gen or gen_case)(chk.rng, tmax, malformed_rate) for _ in range(n)]
     todo = []
     for c in cases:
         T = c['T']
         chk.count('T=%d' % T); chk.count('mode=%s' % c['mode']); chk.count('malformed=%s' % c['malformed'])
-        r = call_impl(impl_kwargs(c))
+        r = call_case(c)
         if c['malformed']:
             if r['ok'] or r['kind'] != 'ValueError':
                 chk.fail('finite_horizon_dp|malformed-%s-not-ValueError' % c['malformed'], 'malformed input (%s): %r' % (c['malformed'], r.get('kind', 'returned a result')), c)
@@ -836,7 +1070,11 @@ def explore(chk, n, tmax, do_model=True, malformed_rate=0.08, gen=None):
                 except Exception as e:
                     chk.broken.append(('harness-tables', '%s: %s' % (type(e).__name__, e)))
             chk.case(c, False); continue
-        chk.count('demand=%s' % (c['demand']['kind'] if c['demand']['kind'] == 'normal' else '+'.join(sorted({spec_of(c, t)['type'] for t in range(1, T + 1)}))))
+        chk.count('demand=%s' % (c['demand']['kind'] if c['demand']['kind'] == 'normal' else ('mixed-None/source:' if c['demand']['kind'] == 'mixed' else '') + '+'.join(sorted({spec_of(c, t)['type'] for t in range(1, T + 1)}))))
+        if c['demand']['kind'] == 'mixed': chk.count('demand_list=mixed-None-and-DemandSource(shape %s)' % ('T1' if len(c['demand']['sources'][1]) == T + 1 else 'T'))
+        if c.get('prior'): chk.count('call_sequence=prior-call-differs-in:' + '+'.join(sorted(c['prior'])))
+        if c.get('lumpy_stream'): chk.count('lumpy_stream=%s,d_min%s0' % (c['lumpy_stream'], '>' if c['lumpy_d_min'] > 0 else '='))
+        if c.get('flat_stream'): chk.count('flat_stream:' + c['flat_stream'])
         for k in ('h', 'p', 'c', 'K', 'gamma'):
             chk.count('shape_%s=%s' % (k, c[k][0] if c[k][0] == 'scalar' else ('T1' if len(c[k][1]) == T + 1 else 'T')))
         chk.count('K=0' if all(v == 0 for v in norm_list(c['K'], T)[1:]) else 'K>0')
@@ -845,9 +1083,11 @@ def explore(chk, n, tmax, do_model=True, malformed_rate=0.08, gen=None):
         if c.get('myopic_stream'): chk.count('myopic_stream_K_profile=%s' % c['myopic_stream'])
         if not r['ok'] and r['kind'] == 'IndexError' and c['IL'] != 0.0:
             # initial_inventory_level outside the grid: cost_matrix[1, int(IL) - x_min] does not exist; the property speaks about the grid only
-            c0 = dict(c, IL=0.0); r0 = call_impl(impl_kwargs(c0))
+            c0 = dict(c, IL=0.0); r0 = call_case(c0)
             if r0['ok'] and not (r0['xr'][0] <= int(c['IL']) <= r0['xr'][-1]):
                 chk.count('IL_outside_grid_IndexError'); c, r = c0, r0
+        for sig, what in sequence_oracle(c, r, chk):
+            chk.fail('finite_horizon_dp|' + sig, what, c)
         if not r['ok']:
             sig = 'finite_horizon_dp|raises-%s' % r['kind'] + ('|T=1' if T == 1 else '')
             chk.fail(sig, 'valid input raises %s: %s' % (r['kind'], r['msg']), c); chk.case(c, False); continue
@@ -858,7 +1098,8 @@ def explore(chk, n, tmax, do_model=True, malformed_rate=0.08, gen=None):
         nontriv = T >= 2 and (any(r['s'][t] < r['S'][t] for t in range(1, T + 1)) or len(set(r['S'][1:])) > 1)
         if do_model: todo.append((c, r, tb, model_expr(c, tb, r['xr'])))
         chk.case(c, nontriv, case_key(c, r))
-    if do_model and todo:
+    def model_phase():
+        if not (do_model and todo): return
         # the model's myopic levels (Alg/FHMyopic_proofs.v) of the optimisation-mode, normal-demand cases: evaluated concurrently with the DP model
         from concurrent.futures import ThreadPoolExecutor
         my_idx = [i for i, (c, r, tb, _) in enumerate(todo) if myopic_model_eligible(c, r)]
@@ -881,6 +1122,8 @@ def explore(chk, n, tmax, do_model=True, malformed_rate=0.08, gen=None):
                     c, r, tb, _ = todo[i]
                     myopic_model_compare(c, r, tb, res[i], mv, chk)
         my_pool.shutdown()
+    if defer: return model_phase
+    model_phase()
 
 
 def run(chk):
@@ -900,17 +1143,42 @@ def run(chk):
     chk.extra['near_tie_skipped'] = 0
     chk.proof()
     n, tmax = (40, 4) if chk.tier == 'quick' else (240, 8)
-    explore(chk, n, tmax)
-    # second stream (oracles only, not compared with the model): period-varying fixed costs on which myopic_bounds' claims are sharp
-    explore(chk, 24 if chk.tier == 'quick' else 120, tmax, do_model=False, malformed_rate=0.0, gen=gen_myopic_case)
+    # first stream: implementation runs and oracles now; the Coq evaluation of the model (coqc processes) and its comparison run in a
+    # thread beside the oracle-only streams (which draw from chk.rng after the first stream has drawn all its cases: same cases as sequentially)
+    import threading
+    model_phase = explore(chk, n, tmax, defer=True); err = []
+    def guarded():
+        try: model_phase()
+        except BaseException as e: err.append(e)
+    th = threading.Thread(target=guarded); th.start()
+    try:
+        run_oracle_streams(chk, tmax)
+    finally:
+        th.join()
+    if err: raise err[0]
     if (chk.broken or chk.mismatches) and not chk.fails:
         explore(chk, 6 * n if chk.tier == 'quick' else n, tmax, do_model=False, malformed_rate=0.03)
 
 
+def run_oracle_streams(chk, tmax):
+    # second stream (oracles only, not compared with the model): period-varying fixed costs on which myopic_bounds' claims are sharp
+    explore(chk, 24 if chk.tier == 'quick' else 120, tmax, do_model=False, malformed_rate=0.0, gen=gen_myopic_case)
+    q = chk.tier == 'quick'
+    # third stream (oracles only): call sequences on shared argument objects
+    explore(chk, 8 if q else 60, tmax, do_model=False, malformed_rate=0.0, gen=gen_seq_case)
+    # fourth stream (oracles only): discrete demand with mass outside the demand-truncation range, d_min > 0
+    explore(chk, 10 if q else 80, tmax, do_model=False, malformed_rate=0.0, gen=gen_lumpy_case)
+    # fifth stream (oracles only): tiny fixed cost relative to the cost level, flat myopic cost -- myopic_bounds against the DP
+    explore(chk, 4 if q else 16, tmax, do_model=False, malformed_rate=0.0, gen=flat_gen_stratified())
+
+
 def replay(chk, rp):
     c = rp['case']
-    r = call_impl(impl_kwargs(c))
+    r = call_case(c)
     print('implementation:', jsonable({k: v for k, v in r.items() if k not in ('cm', 'om')}))
+    if not c.get('malformed'):
+        for sig, what in sequence_oracle(c, r, chk):
+            chk.fail('finite_horizon_dp|' + sig, what, c)
     if c.get('malformed'):
         if r['ok'] or r['kind'] != 'ValueError':
             chk.fail('finite_horizon_dp|malformed-%s-not-ValueError' % c['malformed'], 'malformed input not rejected with ValueError', c)
